@@ -18,7 +18,7 @@ import asyncio, gzip, hashlib, zlib
 from . import vloop
 from .c02pipe import make_connector
 
-KINDS = ("codec", "expect", "convo")
+KINDS = ("codec", "expect", "convo", "trunc")
 
 
 def plain(n, tag=3):
@@ -150,7 +150,10 @@ async def _run_expect(case, obs):
         return web.Response(body=got)
 
     app = web.Application()
-    app.router.add_route("POST", "/up", upload, expect_handler=expect_handler)
+    if case.get("answer") == "default":
+        app.router.add_route("POST", "/up", upload)          # aiohttp's own default expect handler
+    else:
+        app.router.add_route("POST", "/up", upload, expect_handler=expect_handler)
     app.router.add_route("POST", "/echo", echo)
     runner = web.AppRunner(app)
     await runner.setup()
@@ -170,7 +173,8 @@ async def _run_expect(case, obs):
             else:
                 data = body
             try:
-                async with s.post("http://example.test/up", data=data, expect100=True) as resp:
+                ekw = {"headers": {"Expect": case["spelling"]}} if case.get("spelling") else {"expect100": True}
+                async with s.post("http://example.test/up", data=data, **ekw) as resp:
                     cli["status"] = resp.status
                     cli["text"] = await resp.text()
                     cli["conn_hdr"] = resp.headers.get("Connection")
@@ -202,18 +206,20 @@ def oracle_expect(ctx, case, obs):
     cli, srv = obs.get("cli", {}), obs.get("srv", {})
     mode = case.get("answer", "403")
     tag = f"{case.get('source', 'agen')}-answer-{mode}"
-    exp = {"100": (200, "stored"), "raise417": (417, "no")}.get(mode, (int(mode) if mode.isdigit() else 0, "early"))
+    if mode == "default":
+        tag = "default-handler-expect-" + ("canonical" if (case.get("spelling") or "100-continue") == "100-continue" else "other-capitalisation")
+    exp = {"100": (200, "stored"), "default": (200, "stored"), "raise417": (417, "no")}.get(mode, (int(mode) if mode.isdigit() else 0, "early"))
     if obs.get("quiescent"):
         V(f"expect100-exchange-stalls/{tag}", f"nothing left to run; caller state {cli}")
         return
     if "exc" in cli or (cli.get("status"), cli.get("text")) != exp:
         V(f"expect100-response-differs/{tag}", f"expected {exp}, caller got {cli.get('exc') or (cli.get('status'), cli.get('text'))}")
         return
-    if mode == "100" and ("upload", case["n"], True) not in srv.get("reqs", []):
+    if mode in ("100", "default") and ("upload", case["n"], True) not in srv.get("reqs", []):
         V(f"expect100-body-differs/{tag}", f"handler saw {srv.get('reqs')}")
     if cli.get("second_exc") or cli.get("second") != (200, b"second request"):
         rel = cli.get("release") or []
-        V(f"next-request-broken/after-expect100-early-final-response/{case.get('source', 'agen')}" if mode != "100"
+        V(f"next-request-broken/after-expect100-early-final-response/{case.get('source', 'agen')}" if mode not in ("100", "default")
           else f"next-request-broken/after-expect100-{tag}",
           f"the request announced a body ({case.get('source', 'agen')}, {case['n']} bytes) with Expect: 100-continue, the server answered {exp[0]} without "
           f"100 Continue; connector decisions {rel}; the next request on the session got {cli.get('second_exc') or cli.get('second')} "
@@ -288,19 +294,163 @@ def oracle_convo(ctx, case, obs):
         V("keepalive-conversation-reconnects", f"{n} sequential keep-alive exchanges used {cli.get('connections')} connections")
 
 
+# ------------------------------------------------------------------------------ trunc
+async def _trunc_once(case, kill, obs):
+    import aiohttp
+    from aiohttp import web
+    from aiohttp.http import HttpVersion10, HttpVersion11
+    body = plain(case["n"], 8)
+    parts = pieces(body, case.get("parts", 3))
+    down = case["dir"] == "down"
+    srv, cli = obs.setdefault("srv", {}), obs.setdefault("cli", {})
+
+    async def handler(request):
+        if down:
+            r = web.StreamResponse()
+            if case["framing"] == "length":
+                r.content_length = len(body)
+            await r.prepare(request)
+            for i, p in enumerate(parts):
+                if case.get("raise_after") is not None and i == case["raise_after"]:
+                    raise RuntimeError("handler broke mid-stream")
+                await r.write(p)
+            await r.write_eof()
+            return r
+        try:
+            got = await request.read()
+        except BaseException as e:  # noqa
+            srv["read_exc"] = type(e).__name__
+            raise
+        srv["got"] = got
+        srv["complete"] = True
+        return web.Response(text="stored")
+
+    app = web.Application(client_max_size=1 << 30)
+    app.router.add_route("*", "/{tail:.*}", handler)
+    runner = web.AppRunner(app)
+    await runner.setup()
+    seg = case.get("seg") or ["whole"]
+    conn = make_connector(runner.server, ["whole"] if down else seg, seg if down else ["whole"],
+                          kill_s2c=kill if down else None, kill_c2s=None if down else kill)
+    ver = HttpVersion10 if case["framing"] == "eof" else HttpVersion11
+    try:
+        async with aiohttp.ClientSession(connector=conn, version=ver, timeout=aiohttp.ClientTimeout(total=None)) as s:
+            try:
+                if down:
+                    async with s.get("http://example.test/t") as resp:
+                        cli["status"] = resp.status
+                        cli["got"] = await resp.read()
+                        cli["complete"] = True
+                else:
+                    async def gen():
+                        for p in parts:
+                            yield p
+                    kw = {"headers": {"Content-Length": str(len(body))}} if case["framing"] == "length" else {}
+                    async with s.post("http://example.test/t", data=gen(), **kw) as resp:
+                        cli["status"] = resp.status
+                        cli["text"] = await resp.text()
+                        cli["complete"] = True
+            except BaseException as e:  # noqa
+                if isinstance(e, (KeyboardInterrupt, SystemExit)):
+                    raise
+                cli["exc"] = type(e).__name__
+            for _ in range(20):
+                await asyncio.sleep(0)
+            await asyncio.sleep(0.2)
+            obs["wires"] = [(bytes(c.log), bytes(t.log)) for c, t in conn.pairs]
+    finally:
+        await runner.cleanup()
+
+
+async def _run_trunc(case, obs):
+    if case.get("kill_rel") is None:
+        await _trunc_once(case, None, obs)
+        return
+    ref = {}
+    await _trunc_once(dict(case, raise_after=None), None, ref)
+    wire = ref["wires"][0][1 if case["dir"] == "down" else 0]
+    head_end = wire.find(b"\r\n\r\n") + 4
+    obs["ref_len"], obs["head_end"], obs["ref_wire"] = len(wire), head_end, wire
+    obs["kill"] = max(1, head_end + case["kill_rel"])
+    obs["layout"] = wire[head_end:head_end + 12]
+    await _trunc_once(case, obs["kill"], obs)
+
+
+def chunk_position(wire, head_end, pos):
+    """where `pos` lies in the chunked body that starts at head_end"""
+    if pos < head_end:
+        return "in-head"
+    i = head_end
+    while i < len(wire):
+        k = wire.find(b"\r\n", i)
+        if k < 0:
+            break
+        try:
+            size = int(wire[i:k], 16)
+        except ValueError:
+            break
+        d0, d1 = k + 2, k + 2 + size
+        if pos == i:
+            return "at-chunk-boundary"
+        if pos < d0:
+            return "in-size-line"
+        if size == 0:
+            return "in-trailer-section" if pos < d1 + 2 else "after-message"
+        if pos < d1:
+            return "mid-chunk-data" if pos > d0 else "after-size-line"
+        if pos < d1 + 2:
+            return "in-chunk-crlf"
+        i = d1 + 2
+    return "after-message"
+
+
+def oracle_trunc(ctx, case, obs):
+    V = lambda sig, detail: ctx.violation("C02/" + sig, case, detail)
+    body = plain(case["n"], 8)
+    cli, srv = obs.get("cli", {}), obs.get("srv", {})
+    down = case["dir"] == "down"
+    who = "response" if down else "request"
+    fr = case["framing"]
+    kill = obs.get("kill")
+    truncated = case.get("raise_after") is not None or (kill is not None and kill < obs.get("ref_len", 0))
+    got = cli.get("got") if down else srv.get("got")
+    complete = cli.get("complete") if down else srv.get("complete")
+    if not truncated:
+        if not complete or got != body:
+            V(f"body-differs/untruncated-{who}-{fr}", f"nothing was cut, receiver got {None if got is None else len(got)} of {len(body)} complete={complete}")
+        return
+    if fr == "eof":
+        # a close-delimited body cannot show its end: the receiver may only ever see a prefix
+        if complete and got is not None and not body.startswith(got):
+            V(f"body-differs/truncated-{who}-eof", f"receiver got {len(got)} bytes that are not a prefix of the body")
+        return
+    if complete and got != body:
+        if case.get("raise_after") is not None:
+            where = "handler-raised-between-writes"
+        elif fr == "chunked":
+
+            where = "cut-" + chunk_position(obs["ref_wire"], obs["head_end"], kill)
+        else:
+            where = "cut-in-body"
+        V(f"truncated-body-seen-complete/{who}-{fr}/{where}",
+          f"the sender vanished after {kill if kill is not None else 'some writes'} of {obs.get('ref_len', '?')} message bytes ({fr} framing), yet the receiver's "
+          f"read completed normally with {None if got is None else len(got)} of {len(body)} body bytes "
+          f"(caller: {cli.get('exc') or cli.get('status')})")
+
+
 # ------------------------------------------------------------------------------ plumbing
 def run_case(case):
     obs = {}
 
     async def main():
-        await {"codec": _run_codec, "expect": _run_expect, "convo": _run_convo}[case["kind"]](case, obs)
+        await {"codec": _run_codec, "expect": _run_expect, "convo": _run_convo, "trunc": _run_trunc}[case["kind"]](case, obs)
     _, excs, quiescent = vloop.run(main)
     obs["quiescent"] = quiescent
     return obs
 
 
 def oracle(ctx, case, obs):
-    {"codec": oracle_codec, "expect": oracle_expect, "convo": oracle_convo}[case["kind"]](ctx, case, obs)
+    {"codec": oracle_codec, "expect": oracle_expect, "convo": oracle_convo, "trunc": oracle_trunc}[case["kind"]](ctx, case, obs)
 
 
 def gen_cases(ctx):
@@ -328,6 +478,27 @@ def gen_cases(ctx):
                     out.append({"kind": "expect", "source": source, "answer": answer, "n": rng.choice([10, 3000, 70000]), "parts": rng.choice([1, 2, 4]),
                                 "gap": gap, "limit1": limit1, "seg": rng.choice([["whole"], ["k", 100], ["k", 3]]),
                                 "seg2": rng.choice([["whole"], ["k", 5]])})
+    # --- default expect handler, expectation spelled in any case
+    for source in ("agen", "bytes"):
+        for spelling in (None, "100-continue", "100-Continue", "100-CONTINUE"):
+            out.append({"kind": "expect", "source": source, "answer": "default", "spelling": spelling, "n": rng.choice([10, 3000]),
+                        "parts": 2, "gap": 0, "seg": rng.choice([["whole"], ["k", 50]])})
+    # --- the sender vanishes in the middle of a message
+    for direction in ("down", "up"):
+        for framing in ("chunked", "length") + (("eof",) if direction == "down" else ()):
+            sizes = [40, 40, 40]
+            n = sum(sizes)
+            if direction == "down":
+                for k in (1, 2):
+                    out.append({"kind": "trunc", "dir": "down", "framing": framing, "n": n, "parts": 3, "raise_after": k})
+            # chunk frames: "28\r\n" + 40 + "\r\n" = 46 bytes each, then "0\r\n\r\n"
+            rels = [-5, 0, 2, 4, 20, 44, 45, 46, 50, 92, 138, 139, 141, 142] if framing == "chunked" else [-5, 0, 1, 60, n - 1]
+            if not ctx.quick:
+                rels = sorted(set(rels + list(range(0, 144, 3))))
+            for rel in rels:
+                out.append({"kind": "trunc", "dir": direction, "framing": framing, "n": n, "parts": 3, "kill_rel": rel,
+                            "seg": rng.choice([["whole"], ["k", 7], ["k", 46]])})
+            out.append({"kind": "trunc", "dir": direction, "framing": framing, "n": n, "parts": 3, "kill_rel": 100000})
     # --- long keep-alive conversations
     def steps(n, mode):
         st = []
